@@ -919,8 +919,74 @@ def item_rpc(repo):
     return 'def rpcShapeChecked : Bool := true\n'
 
 
+PINS = os.path.join(HERE, 'gen_pins.json')
+
+
+def pin_targets(repo):
+    cm = strip_comments(read(repo, 'crates/anemo/src/network/connection_manager.rs'))
+    cmi = block_after(cm, r'impl\s+ConnectionManager\s*\{')
+    nm = strip_comments(read(repo, 'crates/anemo/src/network/mod.rs'))
+    nmi = block_after(nm, r'impl\s+NetworkInner\s*\{')
+    cf = strip_comments(read(repo, 'crates/anemo/src/config.rs'))
+    cfq = block_after(cf, r'impl\s+QuicConfig\s*\{')
+    cfe = block_after(cf, r'impl\s+EndpointConfigBuilder\s*\{')
+    cfc = block_after(cf, r'impl\s+EndpointConfig\s*\{')
+    ep = strip_comments(read(repo, 'crates/anemo/src/endpoint.rs'))
+    return [
+        ('dialing/dial_peer', cmi, r'fn\s+dial_peer\s*\(\s*&mut self,[^)]*\)'),
+        ('dialing/dial_peer_task', cmi, r'async\s+fn\s+dial_peer_task\s*\([^)]*\)\s*->\s*ConnectingOutput'),
+        ('dialing/handle_connecting_result', cmi, r'fn\s+handle_connecting_result\s*\(.*?\}: ConnectingOutput,?\s*\)'),
+        ('dialing/handle_incoming_task', cmi, r'async\s+fn\s+handle_incoming_task\s*\([^)]*\)\s*->\s*ConnectingOutput'),
+        ('dialing/add_peer', cmi, r'fn\s+add_peer\s*\(&mut self, new_connection: Connection\)'),
+        ('netapi/connect', nmi, r'async\s+fn\s+connect\s*\(&self, addr: Address, peer_id: Option<PeerId>\)\s*->\s*Result<PeerId>'),
+        ('netapi/disconnect', nmi, r'fn\s+disconnect\s*\(&self, peer_id: PeerId\)\s*->\s*Result<\(\)>'),
+        ('netapi/shutdown', nmi, r'async\s+fn\s+shutdown\s*\(&self\)\s*->\s*Result<\(\)>'),
+        ('netapi/is_closed', nmi, r'fn\s+is_closed\s*\(&self\)\s*->\s*bool'),
+        ('netapi/peers', nmi, r'fn\s+peers\s*\(&self\)\s*->\s*Vec<PeerId>'),
+        ('netapi/upgrade', nm, r'pub fn\s+upgrade\s*\(&self\)\s*->\s*Option<Network>'),
+        ('tlsconfig/build', cfe, r'pub fn build\s*\(self\)\s*->\s*Result<EndpointConfig>'),
+        ('tlsconfig/server_config', cfe, r'fn\s+server_config\s*\(\s*certs:.*?\)\s*->\s*Result<quinn::ServerConfig>'),
+        ('tlsconfig/client_config', cfe, r'fn\s+client_config\s*\([^)]*\)\s*->\s*Result<[^{]*>'),
+        ('tlsconfig/client_config_with_expected_server_identity', cfc, r'pub fn\s+client_config_with_expected_server_identity\s*\([^)]*\)\s*->\s*[^{]*'),
+        ('tlsconfig/transport_config', cfq, r'pub\(crate\) fn transport_config\s*\(&self\)\s*->\s*quinn::TransportConfig'),
+        ('endpoint/connect_with_client_config', ep, r'fn\s+connect_with_client_config\s*\([^)]*\)\s*->\s*Result<Connecting>'),
+        ('endpoint/wait_idle', ep, r'pub async fn wait_idle\s*\(&self, max_timeout: Duration\)'),
+    ]
+
+
+def pinned_texts(repo):
+    out = {}
+    for name, src, hdr in pin_targets(repo):
+        m = re.search(hdr, src, flags=re.S)
+        if not m:
+            raise ValueError('pins: ' + name + ': signature not found')
+        out[name] = flat(strip_hooks(block_after(src[m.start():], re.escape(m.group(0)))))
+    return out
+
+
+def make_pin_item(group, lean_name, doc):
+    def f(repo):
+        want = {k: v for k, v in json.load(open(PINS)).items() if k.startswith(group + '/')}
+        got = pinned_texts(repo)
+        for k, v in want.items():
+            if got.get(k) != v:
+                # show where the text starts to differ
+                g = got.get(k, '')
+                i = next((j for j in range(min(len(g), len(v))) if g[j] != v[j]), min(len(g), len(v)))
+                raise ValueError(f'{k} differs from the text the model was written for, at: `{g[max(0, i - 30):i + 60]}`')
+        return f'/-- {doc} -/\ndef {lean_name} : Bool := true\n'
+    f.__doc__ = doc
+    return f
+
+
+item_dialing = make_pin_item('dialing', 'dialingShapeChecked', 'dial_peer, dial_peer_task, handle_connecting_result, handle_incoming_task, add_peer are word for word the functions the dial / admission models were written for')
+item_netapi = make_pin_item('netapi', 'netApiShapeChecked', 'NetworkInner::{connect, disconnect, shutdown, is_closed, peers} and NetworkRef::upgrade are word for word the functions the API lifecycle model was written for')
+item_tlsconfig = make_pin_item('tlsconfig', 'tlsConfigShapeChecked', 'EndpointConfigBuilder::{build, server_config, client_config}, client_config_with_expected_server_identity and QuicConfig::transport_config are word for word the functions the name / pin / idle-timeout models were written for')
+item_endpoint = make_pin_item('endpoint', 'endpointShapeChecked', 'Endpoint::{connect_with_client_config, wait_idle} are word for word the functions the models were written for')
+
+
 ITEMS = [('ANEMO', item_anemo), ('Version', item_version), ('StatusCode', item_status),
-         ('headers', item_headers), ('ConfigDefaults', item_config), ('tieBreak', item_tiebreak), ('codegen', item_codegen), ('admit', item_admit), ('life', item_life), ('registry', item_registry), ('tick', item_tick), ('rpcpath', item_rpcpath), ('tls', item_tls), ('wirefmt', item_wirefmt), ('tower', item_tower), ('timeouts', item_timeouts), ('router', item_router), ('rpc', item_rpc)]
+         ('headers', item_headers), ('ConfigDefaults', item_config), ('tieBreak', item_tiebreak), ('codegen', item_codegen), ('admit', item_admit), ('life', item_life), ('registry', item_registry), ('tick', item_tick), ('rpcpath', item_rpcpath), ('tls', item_tls), ('wirefmt', item_wirefmt), ('tower', item_tower), ('timeouts', item_timeouts), ('router', item_router), ('rpc', item_rpc), ('dialing', item_dialing), ('netapi', item_netapi), ('tlsconfig', item_tlsconfig), ('endpoint', item_endpoint)]
 
 HEADER = '''/- GENERATED by /verif/tools/gen.py from /repo's working tree on every run -- do not edit. -/
 import AnemoModel.Basic
@@ -999,6 +1065,8 @@ def main():
                 status[name] = f'untranslatable:{name}: {e}'
             else:
                 raise
+    if '--write-pins' in args:
+        json.dump(pinned_texts(repo), open(PINS, 'w'), indent=1)
     if '--write-baseline' in args:
         json.dump(texts, open(BASELINE, 'w'), indent=1)
     body = HEADER + '\n'.join(f'-- item {n} [{status[n].split(":")[0]}]\n{texts[n]}' for n, _ in ITEMS) + '\nend Gen\nend Anemo\n'
